@@ -98,6 +98,10 @@ class Runner:
                       'conflicts': 0, 'text_len': {}, 'timeouts': 0}
         signal.signal(signal.SIGALRM, _alarm)
 
+    def reseed(self, seed, hidx):
+        """every history has its own PRNG state derived from (seed, history index)"""
+        self.rng = random.Random((seed * 1000003 + hidx) * 7919 + 13)
+
     # ----------------------------------------------------------------- helpers
     def call(self, fn):
         signal.setitimer(signal.ITIMER_REAL, self.timeout)
@@ -835,6 +839,9 @@ class Runner:
         pre = O.Snap(x)
         pre_effs = O.effs(x)
         ok_scope = '\x1b' not in x._s and all(T.is_group(t) or not O.grammar_valid(t) for ac in pre.acts for t in O.texts(ac))
+        # does the value hold a valid but unparsable setting (verbatim multi-code, unknown code, …)?  Then its
+        # first rendering is not optimised.
+        nongroup = any(q.valid and not q.parsable for p in x._fmts.values() for q in p.add)
         out, fv = self.framed([x], lambda: self.call(lambda: (x.simplify(), x)[1]))
         self.count('simplify', out)
         viol = self.c09(out, 'simplify', '') + fv
@@ -845,6 +852,7 @@ class Runner:
                 want = [O.eff([t for t in O.texts(ac) if O.grammar_valid(t)]) for ac in pre.acts]
                 if x._s == pre.text and O.effs(x) != want:
                     viol.append(('C03', 'simplify_display', '%r -> %r' % (pre.render[0], str(x))))
+            if '\x1b' not in pre.text:
                 if not x.is_formatting_parsable():
                     viol.append(('C03', 'simplify_parsable', ''))
                 if any(not s.valid for p in x._fmts.values() for s in p.add + p.rem):
@@ -852,9 +860,9 @@ class Runner:
                 s1 = str(x)
                 y = x.copy(); y.simplify()
                 if str(y) != s1:
-                    viol.append(('C03', 'simplify_idem', '%r then %r' % (s1, str(y))))
+                    viol.append(('C03', 'simplify_idem', 'nongroup=%r: %r then %r' % (nongroup, s1, str(y))))
                 if str(self.A(s1)) != s1:
-                    viol.append(('C03', 'render_fixed_point', '%r then %r' % (s1, str(self.A(s1)))))
+                    viol.append(('C03', 'render_fixed_point', 'nongroup=%r: %r then %r' % (nongroup, s1, str(self.A(s1)))))
             viol += self.health(x, 'simplify')
         self.emit('simplify', inp, self.outcome_line(out, P.ok_astr), 'simplify %r' % (pre.render[0],), viol)
 
